@@ -473,8 +473,54 @@ impl<'a> FnTr<'a> {
                         Expr::Match(m) if !self.muts.is_empty() && contains_return(e) => {
                             let rest = &stmts[i + 1..];
                             let (sc, sty) = self.ex(&m.expr, env, &mut st, None)?;
+                            // builder T: integer scrutinee (literal / range / or-patterns, a final `_` or binding): an
+                            // if-chain over the arms in order, the rest of the block continued in each arm
+                            if matches!(sty, Ty::Int(_) | Ty::IntLit) && !m.arms.iter().any(|a| a.guard.is_some()) {
+                                let sc_name = if sc.chars().all(|c| c.is_alphanumeric() || c == '_') {
+                                    sc.clone()
+                                } else {
+                                    let n = self.fresh();
+                                    st.push((n.clone(), Rhs::Pure(sc.clone())));
+                                    n
+                                };
+                                let mut arms: Vec<(Option<String>, Seq)> = vec![];
+                                for arm in &m.arms {
+                                    let mut env_a = env.clone();
+                                    let c = self.int_pat_cond(&arm.pat, &sc_name, &mut env_a, &sty)?;
+                                    let mut body: Vec<Stmt> = match &*arm.body {
+                                        Expr::Block(b) => b.block.stmts.clone(),
+                                        other => vec![Stmt::Expr(other.clone(), Some(Default::default()))],
+                                    };
+                                    if let Some(Stmt::Expr(last, semi @ None)) = body.last_mut() {
+                                        // a unit-valued tail expression of an arm (`6 => self.f(..)`) is a statement
+                                        if !matches!(last, Expr::Return(_)) {
+                                            *semi = Some(Default::default());
+                                        }
+                                    }
+                                    let all = splice(&body, rest, env)?;
+                                    let mut seq = self.block_tail(&all, &mut env_a)?;
+                                    if let Pat::Ident(pi) = &arm.pat {
+                                        seq.stmts.insert(0, (lean_ident(&pi.ident.to_string()), Rhs::Pure(sc_name.clone())));
+                                    }
+                                    arms.push((c, seq));
+                                }
+                                let mut acc: Option<Seq> = None;
+                                for (c, s) in arms.into_iter().rev() {
+                                    acc = Some(match (c, acc) {
+                                        (None, _) => s,
+                                        (Some(c), Some(rest)) => Seq { stmts: vec![], tail: Tail::If(format!("decide ({})", c), Box::new(s), Box::new(rest)) },
+                                        (Some(c), None) => Seq {
+                                            stmts: vec![],
+                                            tail: Tail::If(format!("decide ({})", c), Box::new(s), Box::new(Seq { stmts: vec![], tail: Tail::Panic })),
+                                        },
+                                    });
+                                }
+                                let seq = acc.ok_or("empty match")?;
+                                st.extend(seq.stmts);
+                                return Ok(Seq { stmts: st, tail: seq.tail });
+                            }
                             if matches!(sty, Ty::Int(_) | Ty::IntLit) || m.arms.iter().any(|a| a.guard.is_some()) {
-                                return Err("statement-level match with `return`: integer scrutinee / guards not supported".into());
+                                return Err("statement-level match with `return`: integer scrutinee with guards / guards not supported".into());
                             }
                             let mut arms = vec![];
                             for arm in &m.arms {
@@ -2841,6 +2887,27 @@ impl<'a> FnTr<'a> {
                 "unwrap_or" => {
                     let (a, _) = self.ex(&m.args[0], env, st, Some((**inner).clone()))?;
                     Ok((format!("(match {} with | some v => v | none => {})", r, a), (**inner).clone()))
+                }
+                // builder T: `opt.unwrap_or_else(|| e)`: `e` is evaluated (with its checks) only on `None`
+                "unwrap_or_else" => {
+                    let cl = match m.args.first() {
+                        Some(Expr::Closure(cl)) if cl.inputs.is_empty() => cl,
+                        _ => return Err("unwrap_or_else: argument is not a zero-parameter closure".into()),
+                    };
+                    let mut env_c = env.clone();
+                    let mut st2: Stmts = vec![];
+                    let (a, _) = self.ex(&cl.body, &mut env_c, &mut st2, Some((**inner).clone()))?;
+                    if st2.is_empty() {
+                        Ok((format!("(match {} with | some v => v | none => {})", r, a), (**inner).clone()))
+                    } else {
+                        let n = self.fresh();
+                        let arms = vec![
+                            ("some v__".to_string(), Seq { stmts: vec![], tail: Tail::Val("v__".into()) }),
+                            ("none".to_string(), Seq { stmts: st2, tail: Tail::Val(a) }),
+                        ];
+                        st.push((n.clone(), Rhs::Br(Box::new(Tail::Match(r, arms)))));
+                        Ok((n, (**inner).clone()))
+                    }
                 }
                 "unwrap" | "expect" => Ok((self.act(st, r), (**inner).clone())),
                 // combinators with a pure one-parameter closure
